@@ -42,7 +42,11 @@ def tokenize(source: str):
             if token.type == 'Quote':
                 ctx['quote'] = None if ch == ctx['quote'] else ch
             elif token.type == 'Bracket':
-                ctx[token.context] += 1 if token.open else -1
+                if token.open:
+                    ctx[token.context] += 1
+                elif ctx[token.context] > 0:
+                    # a stray closing bracket must not drive the nesting counter below zero
+                    ctx[token.context] -= 1
         else:
             raise scanner.error('Unexpected character')
 
